@@ -532,7 +532,7 @@ package saml
 //@ requires[cfg] session: session != nil
 //@ ensures[C06] set: err == nil ==> req.Assertion != nil && req.Assertion.Subject != nil && req.Assertion.Conditions != nil && req.Assertion.Subject.NameID != nil
 //@ ensures[C06] issuer: err == nil ==> req.Assertion.Issuer.Value == req.IDP.MetadataURL.String()
-//@ ensures[C06] nameid: err == nil ==> req.Assertion.Subject.NameID.Value == session.NameID &&
+//@ ensures[C06,C19] nameid: err == nil ==> req.Assertion.Subject.NameID.Value == session.NameID &&
 //@    req.Assertion.Subject.NameID.SPNameQualifier == req.ServiceProviderMetadata.EntityID
 //@ -- exactly one (bearer) confirmation, addressed to the selected registered endpoint, answering this request, expiring MaxIssueDelay after issuance
 //@ ensures[C06] bearer: err == nil ==> len(req.Assertion.Subject.SubjectConfirmations) == 1 &&
@@ -547,9 +547,9 @@ package saml
 //@ ensures[C06] one_statement: err == nil ==> len(req.Assertion.AttributeStatements) == 1 && len(req.Assertion.AuthnStatements) == 1 &&
 //@    req.Assertion.AuthnStatements[0].SessionIndex == session.Index
 //@ -- every attribute value that is added comes from the authenticated session (or is one of its custom attributes)
-//@ assert@call[C06] append #0 (dst []Attribute, src []Attribute) only_session_attributes:
+//@ assert@call[C06,C19] append #0 (dst []Attribute, src []Attribute) only_session_attributes:
 //@    sameAttrs(src, session.CustomAttributes) || forall(0, len(src), func(k int) bool { return attrFromSession(src[k], session) })
-//@ assert@call[C06] append #0 (dst []AttributeValue, src []AttributeValue) only_session_groups:
+//@ assert@call[C06,C19] append #0 (dst []AttributeValue, src []AttributeValue) only_session_groups:
 //@    forall(0, len(src), func(k int) bool { return valueFromSession(src[k].Value, session) })
 //@ -- each fixed attribute carries the session field it is named after, and is emitted exactly when that field is non-empty
 //@ -- (C19: the assertion describes the user as stored at login)
@@ -567,7 +567,7 @@ package saml
 //@ assert@call[C06,C19] append #12 (dst []Attribute, src []Attribute) attr_affiliation: oneAttr(src, "scopedAffiliation", "urn:oid:1.3.6.1.4.1.5923.1.1.1.9", session.UserScopedAffiliation)
 //@ assert@call[C06,C19] append #13 (dst []Attribute, src []Attribute) attr_custom: sameAttrs(src, session.CustomAttributes)
 //@ loop 3 vars groupMemberAttributeValues []AttributeValue
-//@ invariant[C06] groups_only: forall(0, len(groupMemberAttributeValues), func(k int) bool { return valueFromSession(groupMemberAttributeValues[k].Value, session) })
+//@ invariant[C06,C19] groups_only: forall(0, len(groupMemberAttributeValues), func(k int) bool { return valueFromSession(groupMemberAttributeValues[k].Value, session) })
 
 //@ contract (*IdpAuthnRequest).MakeResponse
 //@ requires[cfg] idp: req.IDP != nil && req.IDP.Certificate != nil
@@ -620,7 +620,7 @@ package saml
 //@ -- a response is written only for a validated request, an existing session and a registered endpoint
 //@ assert@call[C05,C19] WriteResponse #1 (rq *IdpAuthnRequest) uses session *Session only_authenticated: session != nil
 //@ assert@call[C05,C19] WriteResponse #1 (rq *IdpAuthnRequest) same_idp: rq.IDP == idp
-//@ assert@call[C05] WriteResponse #1 (rq *IdpAuthnRequest) only_registered_endpoint: registeredACS(rq)
+//@ assert@call[C05,C19] WriteResponse #1 (rq *IdpAuthnRequest) only_registered_endpoint: registeredACS(rq)
 //@ assert@call[C05,C19] WriteResponse #1 (rq *IdpAuthnRequest) only_known_sp: rq.Request.Issuer != nil &&
 //@    RegistryHas(idp.ServiceProviderProvider, rq.Request.Issuer.Value, rq.ServiceProviderMetadata)
 //@ assert@call[C05] WriteResponse #1 (rq *IdpAuthnRequest) only_fresh_v2: ns(rq.Now) <= ns(rq.Request.IssueInstant)+int64(MaxIssueDelay) && rq.Request.Version == "2.0"
